@@ -262,25 +262,43 @@ type parsedDoc struct {
 	kind   string
 }
 
-func docSexp(doc *ast.Document) parsedDoc {
+// docSexp: the whole document as the parser produced it.  With one operation and no operation
+// name the case carries the short form (doc ...), otherwise (request opname (ops) frags).  kind and
+// opSels (for the outcome generator only) are those of the operation named opName, or of the
+// first one.
+func docSexp(doc *ast.Document, opName string) parsedDoc {
 	out := parsedDoc{frags: map[string]fragInfo{}, kind: "query"}
-	var frs []sexp.Node
+	var frs, ops []sexp.Node
 	var opPos, opSels sexp.Node
+	chosen := false
 	for _, d := range doc.Definitions {
 		switch d := d.(type) {
 		case *ast.OperationDefinition:
+			kind := "query"
 			if d.OperationType != nil {
-				out.kind = d.OperationType.Value
+				kind = d.OperationType.Value
 			}
-			opPos = posSexp(d)
-			opSels, out.opSels = selsSexp(d.SelectionSet)
+			name := sexp.None()
+			if d.Name != nil {
+				name = sexp.Some(sexp.Str(d.Name.Name))
+			}
+			sels, info := selsSexp(d.SelectionSet)
+			ops = append(ops, sexp.T("op", name, sexp.Sym(kind), posSexp(d), sels))
+			if !chosen && (len(ops) == 1 || (d.Name != nil && d.Name.Name == opName)) {
+				out.kind, out.opSels, opPos, opSels = kind, info, posSexp(d), sels
+				chosen = d.Name != nil && d.Name.Name == opName
+			}
 		case *ast.FragmentDefinition:
 			sels, info := selsSexp(d.SelectionSet)
 			frs = append(frs, sexp.L(sexp.Str(d.Name.Name), sexp.Str(d.TypeCondition.Name.Name), sels))
 			out.frags[d.Name.Name] = fragInfo{cond: d.TypeCondition.Name.Name, sels: info}
 		}
 	}
-	out.node = sexp.T("doc", sexp.Sym(out.kind), opPos, opSels, sexp.L(frs...))
+	if len(ops) == 1 && opName == "" {
+		out.node = sexp.T("doc", sexp.Sym(out.kind), opPos, opSels, sexp.L(frs...))
+	} else {
+		out.node = sexp.T("request", sexp.Str(opName), sexp.L(ops...), sexp.L(frs...))
+	}
 	return out
 }
 
@@ -385,7 +403,9 @@ func observe(resp *graphql.Response) sexp.Node {
 type caseInput struct {
 	s    *schemaDef
 	text string
-	vars map[string]interface{}
+	// Request.OperationName
+	opName string
+	vars   map[string]interface{}
 	env  map[string]*bool
 	// outcome tree: built after parsing, from the parsed document
 	mkW func(p parsedDoc) *outcome
@@ -446,7 +466,7 @@ func runCase(in caseInput) sexp.Node {
 		return sexp.T("case", schemaSexp(in.s), sexp.T("doc", sexp.Sym("query"), sexp.L(sexp.Int(1), sexp.Int(1)), sexp.L(), sexp.L()),
 			sexp.L(envL...), sexp.Sym("nil"), sexp.T("rejected", sexp.Str(in.text), sexp.Str(errs[0].Message)), sexp.L(flags...))
 	}
-	pd := docSexp(doc)
+	pd := docSexp(doc, in.opName)
 	w := in.mkW(pd)
 	var obs sexp.Node
 	func() {
@@ -458,6 +478,7 @@ func runCase(in caseInput) sexp.Node {
 		resp := graphql.Execute(&graphql.Request{
 			Context:        context.Background(),
 			Document:       doc,
+			OperationName:  in.opName,
 			Schema:         schema,
 			VariableValues: in.vars,
 			InitialValue:   w.value(),
@@ -479,7 +500,7 @@ func genCase(r *rng.R, hostile bool) sexp.Node {
 	s := genSchema(r)
 	d := genDocument(r, s, hostile)
 	pFail := rng.Pick(r, []int{0, 3, 8, 8, 15, 15, 25, 40})
-	return runCase(caseInput{s: s, text: d.text, vars: d.vars, env: d.env, unvalidated: hostile, mkW: func(p parsedDoc) *outcome {
+	return runCase(caseInput{s: s, text: d.text, opName: d.opName, vars: d.vars, env: d.env, unvalidated: hostile, mkW: func(p parsedDoc) *outcome {
 		g := &wGen{s: s, r: r, pFail: pFail, frags: p.frags}
 		root := s.query
 		if p.kind == "mutation" {
